@@ -296,3 +296,57 @@ func H_Ensure_Same() {
 		vx.Assert(vx.EqBytes(a.out, b.out), "C14/same-bytes-with-and-without-option")
 	}
 }
+
+// H_Options_Reuse (C12, C09): one *ApplyOptions value reused for several ApplyWithOptions calls. A call that is
+// stopped (failing test, missing path, or the limit itself) after some copies must leave nothing behind: the next
+// call with the same options behaves as with fresh options.
+func H_Options_Reuse() {
+	doc := docShape(13, "d.")
+	docB := render(doc)
+	tok := func(s string) Tok { return Tok{Raw: []byte(s), Name: []byte(s)} }
+	cp := Op{Kind: OpCopy, From: Ptr{Toks: []Tok{tok("a")}}, Path: Ptr{Toks: []Tok{tok("z")}}}
+	var first []Op
+	switch vx.Choose("first", 4) {
+	case 0: // copy then a failing test
+		first = []Op{cp, {Kind: OpTest, Path: Ptr{Toks: []Tok{tok("b")}}, Val: jStrS("no"), HasVal: true}}
+	case 1: // copy then a missing path
+		first = []Op{cp, {Kind: OpRemove, Path: Ptr{Toks: []Tok{tok("absent")}}}}
+	case 2: // copies until the limit stops the call (or not)
+		first = []Op{cp, cp, cp}
+	case 3: // a successful call
+		first = []Op{cp}
+	}
+	second := []Op{cp}
+	if vx.Choose("second", 2) == 1 {
+		second = []Op{cp, cp}
+	}
+	limit := vx.Int64("opt.limit")
+	escape := vx.Choose("opt.escape", 2) == 1
+	o := jsonpatch.NewApplyOptions()
+	o.AccumulatedCopySizeLimit = limit
+	o.EscapeHTML = escape
+	p1, p2 := renderPatch(first), renderPatch(second)
+	vx.Note("doc", docB)
+	vx.Note("first", p1)
+	vx.Note("second", p2)
+	a := runApply(docB, p1, o)
+	b := runApply(docB, p2, o)
+	vx.Assert(!a.panicked && !b.panicked, "C04/apply-no-panic")
+	if a.panicked || b.panicked || a.decErr != nil || b.decErr != nil {
+		return
+	}
+	sizeOf := func(v *JV) int { return escapedSize(v, escape) }
+	ref := refApply(doc, second, RefOpts{}, limit, sizeOf)
+	if ref.Outside {
+		return
+	}
+	if ref.Err == eCopyLimit {
+		vx.Assert(b.err != nil && errIsCopy(b.err), "C12/reused-options-limit-error-iff-total-exceeds")
+		vx.Reach("reuse/limit-hit")
+	} else {
+		vx.Assert(b.err == nil, "C12/reused-options-no-error-within-limit")
+		vx.Assert(b.err == nil, "C09/reused-options-same-outcome")
+	}
+	vx.Assert(o.AccumulatedCopySizeLimit == limit && o.EscapeHTML == escape, "C09/options-not-written")
+	vx.Reach("reuse/end")
+}
